@@ -9,7 +9,7 @@ Next == ph = 0 /\ ph' = 1 /\ UNCHANGED i
 J == ph = 1
 T == Traces[i]
 PP == [L |-> T.p.l, L2 |-> T.p.l2, CS |-> T.p.cs, SS |-> T.p.ss, CMMS |-> T.p.cmms, SMMS |-> T.p.smms, Faults |-> 1000, Guard |-> TRUE]
-File(d) == [k \in 1..Len(d.pieces) |-> <<d.pieces[k][1], d.pieces[k][2], d.pieces[k][3]>>]
+File(d) == d.pieces              \* request bodies: <<pos, a, b>>; response bodies: <<pos, a, b, version>>
 Has(q, x) == \E k \in 1..Len(q) : q[k] = x
 Success == T.ret = "ok" /\ T.retcode \in {68, 69}         \* the call returned a 2.04 / 2.05 response
 
@@ -17,7 +17,10 @@ Success == T.ret = "ok" /\ T.retcode \in {68, 69}         \* the call returned a
 \*  presented as complete" / "never corrupt, truncate or extend a body" - request direction
 C04_ExactUp   == J => \A k \in 1..Len(T.app) : (T.app[k].len = 0 /\ T.p.l = 0) \/ FileIs(File(T.app[k]), T.p.l)
 \* - response direction
-C04_ExactDown == (J /\ Success) => \A k \in 1..Len(T.got) : (T.got[k].len = 0 /\ T.p.l2 = 0) \/ FileIs(File(T.got[k]), T.p.l2)
+\*   (every execution of the server application yields a new representation, announced by its ETag: the body handed
+\*    over is ONE of the representations produced, whole - never a mixture, never zeros in place of bytes)
+C04_ExactDown == (J /\ Success) => \A k \in 1..Len(T.got) : (T.got[k].len = 0 /\ T.p.l2 = 0)
+                                       \/ (FileIs(File(T.got[k]), T.p.l2) /\ OneVersion(File(T.got[k])) /\ File(T.got[k])[1][4] \in 1..Len(T.app))
 \* "with the message's other options preserved"
 C04_Options   == J => /\ \A k \in 1..Len(T.app) : (T.app[k].query /\ Has(T.app[k].opts, 11) /\ (T.p.l > 0 => T.app[k].cf = 42))
                       /\ Success => \A k \in 1..Len(T.got) : (Has(T.got[k].opts, 14) /\ T.got[k].cf = 42)
@@ -37,7 +40,7 @@ RECURSIVE RunActs(_, _, _)
 RunActs(s, acts, k) == IF k > Len(acts) THEN s
                        ELSE LET S == Apply(PP, s, acts[k]) IN RunActs(IF S = {} THEN s ELSE CHOOSE t \in S : TRUE, acts, k + 1)
 MF == RunActs(S0(PP), Applied, 1)
-SameMsg(m, r) == /\ m.dir = r.dir /\ m.kind = r.kind /\ m.b1 = r.b1 /\ m.b2 = r.b2
+SameMsg(m, r) == /\ m.dir = r.dir /\ m.kind = r.kind /\ m.b1 = r.b1 /\ m.b2 = r.b2 /\ (m.kind = "resp" => m.ver = r.ver)
                  /\ (m.pay[2] - m.pay[1]) = r.plen
                  /\ (r.plen >= 4 /\ r.pay[1] >= 0) => <<r.pay[1], r.pay[2]>> = m.pay
 K04_Conforms  == (J /\ T.op = "layer") => (Len(MF.sent) = Len(T.msgs) /\ \A k \in 1..Len(T.msgs) : SameMsg(MF.sent[k], T.msgs[k]))
